@@ -209,6 +209,9 @@ func validProgram(p *Program) bool {
 
 // candidates returns all one-step reductions of p (each a fresh deep copy).
 func candidates(p *Program) []*Program {
+	// normalise through the JSON round trip first: empty statement lists become nil, so the list/expression
+	// indices computed on p agree with those of every clone
+	p = cloneProgram(p)
 	var out []*Program
 	add := func(mut func(c *Program) bool) {
 		c := cloneProgram(p)
@@ -504,7 +507,18 @@ func buildClass(sig string) string {
 	return sig
 }
 
-func (rs *runState) shrink(v *violationT) *violationT {
+// shrink never loses a violation: if the reducer itself fails, the unshrunk violation is reported.
+func (rs *runState) shrink(v *violationT) (out *violationT) {
+	defer func() {
+		if r := recover(); r != nil {
+			fmt.Println("note: reducer failed (", r, "); reporting the unshrunk case")
+			out = v
+		}
+	}()
+	return rs.shrink1(v)
+}
+
+func (rs *runState) shrink1(v *violationT) *violationT {
 	// per-violation budget, inside an overall budget for the run
 	per, total := 90*time.Second, 4*time.Minute
 	if rs.tier == "thorough" {
